@@ -36,5 +36,12 @@ def run(F, X, rep):
     # "the HTLCs counted stay held until the payment's fate is known": pay's Err (which releases them) is returned only
     # once nothing is pending or complete (C16-D, C15-V*)
     H.q_request_fields_verbatim(C, rep, "C03-Q")
+    # held until the fate is known: each lifecycle answers once - a second answer would hit the entry of a later attempt
+    R.p2_exactly_one_answer(C, rep, "C03-R11")
+    # "at least the amount to deliver plus the policy fee": the readiness predicate is the exact one (C12-X1/X2)
+    import p_c12
+    for pb in p_c12.find_fee_predicate(F)[:1]:
+        p_c12.c12_x1(F, X, rep, pb)
+        p_c12.c12_x2(F, X, rep, pb)
     P.d_dispatch(C, rep, "C03-R10")
     P.v_wait_payment(C, rep, "C03-R10")
